@@ -10,7 +10,7 @@ import PS.Proofs.Congr2
 import PS.Proofs.EvalB
 namespace PS
 
-deriving instance DecidableEq for TaskKind, Task, Req
+deriving instance DecidableEq for TaskKind, Task, Req, Cost, Worker, Select, ReqEvent
 
 def CBody.isConn : CBody → Bool
   | .not_ .. | .or_ .. | .and_ .. | .xor_ .. | .implies .. | .ifThenElse .. | .fromExpr .. => true
@@ -73,5 +73,76 @@ def State.fragmentB (st : State) : Bool :=
      | none => false)) &&
   decide (st.indicators.Pairwise (fun a b => a.var ≠ b.var)) &&
   st.buffers.isEmpty && decide (st.objectives.length ≤ 1)
+
+
+/-! ### "the same problem up to task numbers", executable (hypotheses of `C14_tasks_order_verdict`) -/
+
+/-- the same task declaration, possibly with another number -/
+def Task.sameDecl (t t' : Task) : Bool := t' == { t with num0 := t'.num0 }
+
+def sameDeclList : List Task → List Task → Bool
+  | [], [] => true
+  | t :: ts, t' :: ts' => t.sameDecl t' && sameDeclList ts ts'
+  | _, _ => false
+
+/-- the same constraint over the same task declarations (the classes whose meaning reads task times and flags) -/
+def CBody.sameUpTo : CBody → CBody → Bool
+  | .startAt t v, .startAt t' v' => t.sameDecl t' && v == v'
+  | .startAfter t v s, .startAfter t' v' s' => t.sameDecl t' && v == v' && s == s'
+  | .endAt t v, .endAt t' v' => t.sameDecl t' && v == v'
+  | .endBefore t v s, .endBefore t' v' s' => t.sameDecl t' && v == v' && s == s'
+  | .precedence a b off k, .precedence a' b' off' k' => a.sameDecl a' && b.sameDecl b' && off == off' && k == k'
+  | .startSynced a b, .startSynced a' b' => a.sameDecl a' && b.sameDecl b'
+  | .endSynced a b, .endSynced a' b' => a.sameDecl a' && b.sameDecl b'
+  | .dontOverlap a b, .dontOverlap a' b' => a.sameDecl a' && b.sameDecl b'
+  | .forceSchedule t b, .forceSchedule t' b' => t.sameDecl t' && b == b'
+  | .dependency a b, .dependency a' b' => a.sameDecl a' && b.sameDecl b'
+  | .forceScheduleN ts n k, .forceScheduleN ts' n' k' => sameDeclList ts ts' && n == n' && k == k'
+  | .forceApplyN cs n k, .forceApplyN cs' n' k' => cs == cs' && n == n' && k == k'
+  | .sameWorkers s1 s2, .sameWorkers s1' s2' => s1 == s1' && s2 == s2'
+  | _, _ => false
+
+def State.numbersIntoB (st st' : State) : Bool :=
+  decide (st.horizon = st'.horizon) &&
+  st.tasks.all (fun t => st'.tasks.any (fun t' => t.sameDecl t')) &&
+  decide (st.workers = st'.workers) && decide (st.reqLog = st'.reqLog) &&
+  st.constrs.all (fun c => c.operand ||
+    st'.constrs.any (fun c' => !c'.operand && (!c.optional || c'.id == c.id) && c'.optional == c.optional &&
+      c.body.sameUpTo c'.body))
+
+/-- every delay-in stays below the number of its task (what finding F19 violates) -/
+def State.delaysBelowB (st : State) : Bool :=
+  st.tasks.all (fun t => (st.reqsOf t.name).all (fun r => decide (r.delayIn ≤ t.num0)))
+
+/-- all the hypotheses of `C14_tasks_order_verdict` about a pair of reachable states -/
+def State.tasksOrderTheoremB (st st' : State) : Bool :=
+  st.numbersIntoB st' && st'.numbersIntoB st && st.fragmentB && st'.fragmentB && st.delaysBelowB && st'.delaysBelowB
+
+
+/-! ### "the problem without the task", executable (hypotheses of `C06_deletion_sound`) -/
+
+/-- the problem without task `n` (the definition the theorems of `PS/Theorems/Absent.lean` are about) -/
+def State.dropTaskB (st : State) (n : String) : State :=
+  { st with
+    tasks := st.tasks.filter (fun t => t.name != n)
+    reqLog := st.reqLog.filter (fun ev => ev.task != n)
+    constrs := st.constrs.filter (fun c => !(c.body.coreTasks.any (fun t => t.name == n))) }
+
+def CBody.isGuardedB : CBody → Bool
+  | .startAt .. | .startAfter .. | .endAt .. | .endBefore .. | .precedence .. | .startSynced .. | .endSynced ..
+  | .dontOverlap .. => true
+  | _ => false
+
+/-- `full` is a problem with the optional task `n`, `without` the problem a script without `n` produces: every
+    hypothesis under which an unscheduled `n` is as good as absent -/
+def State.dropTaskTheoremB (full without : State) (n : String) : Bool :=
+  let d := full.dropTaskB n
+  (match full.findTask n with | some t => t.optional | none => false) &&
+  d.numbersIntoB without && without.numbersIntoB d &&
+  full.fragmentB && d.fragmentB && without.fragmentB &&
+  full.delaysBelowB && d.delaysBelowB && without.delaysBelowB &&
+  -- `n` required no selection, and the constraints naming it are of the guarded classes
+  (full.eventsOf n).all (fun ev => match ev with | .direct _ _ => true | .viaSelect _ _ _ _ => false) &&
+  full.constrs.all (fun c => c.operand || !(c.body.coreTasks.any (fun t => t.name == n)) || c.body.isGuardedB)
 
 end PS
